@@ -319,7 +319,7 @@ def bounded_algebra(tier, seed):
     jobs = []
     for tree in ["flat", "deep", "prefix", "nestedprefix"] + (["deeper"] if tier != "quick" else []):
         mods = TREES[tree]
-        rels = import_relations(mods, rng, n_random=(40 if tier == "quick" else 400), exhaustive_upto=1, include_related=True)
+        rels = import_relations(mods, rng, n_random=(40 if tier == "quick" else 3000), exhaustive_upto=1, include_related=True)
         rng.shuffle(rels)
         if tier == "quick":
             rels = rels[:240]
@@ -453,7 +453,7 @@ def bounded_expansion(tier, seed):
     jobs = []
     for tree in ["flat", "deep", "prefix", "nestedprefix"]:
         mods = TREES[tree]
-        rels = import_relations(mods, rng, n_random=(30 if tier == "quick" else 300), exhaustive_upto=1, include_related=True)
+        rels = import_relations(mods, rng, n_random=(30 if tier == "quick" else 1500), exhaustive_upto=1, include_related=True)
         rng.shuffle(rels)
         if tier == "quick":
             rels = rels[:48]
